@@ -218,13 +218,21 @@ def _r2(run, prog, eff, concrete):
     cal0 = ci.methods.get('calibrate')
     if cal0 is None:
         raise AnalysisError('anchored method vanished: Spectrometer.calibrate')
+    from ..inline import append_helper_bodies, desugar_pairwise
     cal = prep(cal0, class_lookup(prog, ci))
     sp = cal.args.args[1].arg
-    _calibrate_pixels(run, ci, cal, sp, K)
-    # range check precedes the loop and raises
+    # helpers that could not be expanded in place (called from a comprehension) are read as well; pairwise iteration reads as the index form
+    cal_all = desugar_pairwise(append_helper_bodies(cal, class_lookup(prog, ci)))
+    _calibrate_pixels(run, ci, cal_all, sp, K)
+    # range check precedes the integration and raises
     run.subject('C16-R2')
     okr = False
     loops = [l for l in cal.body if isinstance(l, ast.For)]
+    if not loops:
+        # no loop in calibrate itself (the pixels are averaged in a helper / comprehension): "before integrating" is "before the first
+        # statement that is not a guard"
+        loops = [st for st in cal.body if not (isinstance(st, ast.If) and any(isinstance(x, ast.Raise) for x in ast.walk(st)))
+                 and not (isinstance(st, ast.Expr) and isinstance(st.value, ast.Constant))][:1]
     for r in [r for r in ast.walk(cal) if isinstance(r, ast.Raise)]:
         t = _enclosing_if(cal, r)
         if t is None or not loops or t.lineno >= loops[0].lineno:
